@@ -87,7 +87,12 @@ func c13Script(idp *IdP) {
 	idp.Codes["wrongiss"] = CodeBehaviour{AccessToken: "at-x", IDToken: mk("wrongiss", func(m map[string]any) { m["preferred_username"] = "mallory"; m["iss"] = "https://evil.example" }, false)}
 	idp.Codes["wrongaud"] = CodeBehaviour{AccessToken: "at-x", IDToken: mk("wrongaud", func(m map[string]any) { m["preferred_username"] = "mallory"; m["aud"] = "another-client" }, false)}
 	idp.Codes["expired"] = CodeBehaviour{AccessToken: "at-x", IDToken: mk("expired", func(m map[string]any) { m["preferred_username"] = "mallory"; m["exp"] = now.Add(-time.Hour).Unix() }, false)}
-	idp.Codes["nouser"] = CodeBehaviour{AccessToken: "at-x", IDToken: mk("nouser", func(m map[string]any) { m["email"] = "mallory@example.com" }, false)}
+	// (no user-name claim: an e-mail address and claims whose names differ from the four user-name claims only in
+	// letter case are not user-name claims)
+	idp.Codes["nouser"] = CodeBehaviour{AccessToken: "at-x", IDToken: mk("nouser2", func(m map[string]any) {
+		m["email"] = "mallory@example.com"
+		m["Preferred_Username"], m["USERNAME"], m["Upn"], m["Unique_Name"] = "mallory", "mallory", "mallory", "mallory"
+	}, false)}
 }
 
 type whoami struct {
